@@ -48,11 +48,42 @@ Definition colon_d : byte := ":"%byte.
 (* const ws = " \n\r\t" *)
 Definition is_chal_ws (b : byte) : bool :=
   beqb b " "%byte || beqb b x0a || beqb b x0d || beqb b x09.
-(* strings.TrimSpace, ASCII part: \t \n \v \f \r space (the harness keeps non-ASCII white
-   space away from parameter boundaries) *)
+(* the ASCII white space of strings.TrimSpace: \t \n \v \f \r space *)
 Definition is_space (b : byte) : bool :=
   beqb b " "%byte || beqb b x09 || beqb b x0a || beqb b x0b || beqb b x0c || beqb b x0d.
-Definition trim_space (s : bytes) : bytes := trim is_space s.
+(* strings.TrimSpace = TrimFunc(unicode.IsSpace): besides the ASCII ones, the UTF-8 encodings of
+   U+0085, U+00A0, U+1680, U+2000-U+200A, U+2028, U+2029, U+202F, U+205F, U+3000 are stripped from
+   both ends (a byte sequence that is not one of these encodings decodes to a rune that is not a
+   space - RuneError included - and stops the scan) *)
+Definition uni_spaces : list bytes :=
+  [[xc2; x85]; [xc2; xa0]; [xe1; x9a; x80];
+   [xe2; x80; x80]; [xe2; x80; x81]; [xe2; x80; x82]; [xe2; x80; x83]; [xe2; x80; x84]; [xe2; x80; x85];
+   [xe2; x80; x86]; [xe2; x80; x87]; [xe2; x80; x88]; [xe2; x80; x89]; [xe2; x80; x8a];
+   [xe2; x80; xa8]; [xe2; x80; xa9]; [xe2; x80; xaf]; [xe2; x81; x9f]; [xe3; x80; x80]].
+(* width of the space rune at the head of s / at the head of the REVERSED text r; 0 if none *)
+Definition space_head (s : bytes) : nat :=
+  match s with
+  | [] => 0
+  | b :: _ => if is_space b then 1
+              else match find (fun q => has_prefix q s) uni_spaces with Some q => length q | None => 0 end
+  end.
+Definition space_tail (r : bytes) : nat :=
+  match r with
+  | [] => 0
+  | b :: _ => if is_space b then 1
+              else match find (fun q => has_prefix (rev q) r) uni_spaces with Some q => length q | None => 0 end
+  end.
+Fixpoint strip_spaces (heads : bytes -> nat) (fuel : nat) (s : bytes) : bytes :=
+  match fuel with
+  | O => s
+  | S f => match heads s with
+           | O => s
+           | S _ as n => strip_spaces heads f (skipn n s)
+           end
+  end.
+Definition trim_space (s : bytes) : bytes :=
+  let s1 := strip_spaces space_head (length s) s in
+  rev (strip_spaces space_tail (length s1) (rev s1)).
 Definition trim_quotes (s : bytes) : bytes := trim (beqb dquote) s.
 
 (* strings.SplitN(s, "=", 2) *)
